@@ -53,14 +53,21 @@ class Value:
         return f"Value(#{self.attempt},{self.klass})"
 
 
+LOOP_MODE = False     # True while a scenario runs under a real asyncio event loop
+
+
 class _Suspend:
-    """Awaitable that hands control to the hand-written driver (one suspension point)."""
+    """Awaitable that hands control to the hand-written driver (one suspension point); under a
+    real event loop it is a plain asyncio.sleep(0)."""
 
     def __init__(self, label: str) -> None:
         self.label = label
 
     def __await__(self):
-        yield self
+        if LOOP_MODE:
+            yield from asyncio.sleep(0).__await__()
+        else:
+            yield self
 
 
 class HostileError(Exception):
@@ -522,7 +529,7 @@ class Env:
 # ---------------------------------------------------------------------------
 # building the real objects
 # ---------------------------------------------------------------------------
-def retry_kwargs(env: Env, cfg: dict, *, place: str = "call") -> tuple[dict, dict]:
+def retry_kwargs(env: Env, cfg: dict, *, place: str = "call", atimeout: bool = False) -> tuple[dict, dict]:
     """-> (constructor kwargs for Retry/AsyncRetry/RetryPolicy..., per-call kwargs)"""
     EC = env.EC
     ctor: dict[str, Any] = dict(
@@ -538,6 +545,8 @@ def retry_kwargs(env: Env, cfg: dict, *, place: str = "call") -> tuple[dict, dic
         budget=env.make_budget(cfg["budget"], cfg.get("bW", 100000)) if cfg["budget"] != NONE else None,
     )
     _ = EC
+    if atimeout:
+        ctor["attempt_timeout_s"] = 500.0        # never fires: operations finish at once
     call: dict[str, Any] = dict(
         on_metric=env.on_metric, on_log=env.on_log,
         operation="op" if cfg["opname"] else None,
@@ -650,16 +659,18 @@ def make_entry(entry: str, env: Env, ctor: dict, call: dict):
 def run_scenario(cfg: dict, events: list[dict], *, entry: str, perm=None, place: str = "call",
                  async_callbacks: bool = False, hook_fault: dict | None = None,
                  wall: str = "jump", site_fault: dict | None = None, hooks: bool = False,
-                 force_mode: str | None = None, timeline: bool = False) -> list[dict]:
+                 force_mode: str | None = None, timeline: bool = False, atimeout: bool = False,
+                 loop: bool = False) -> list[dict]:
     """Execute the scenario through one entry point of the real library; returns the observed
     event list (same vocabulary as M's behaviours)."""
     is_async = entry.startswith(("Async", "async"))
     env = Env(cfg, events, perm=perm, is_async=is_async, async_callbacks=async_callbacks,
               hook_fault=hook_fault, wall=wall)
     env.site_fault = site_fault
-    ctor, call = retry_kwargs(env, cfg, place=place)
+    ctor, call = retry_kwargs(env, cfg, place=place, atimeout=atimeout)
     if hooks:
         call.update(on_attempt_start=env.astart, on_attempt_end=env.aend)
+    global LOOP_MODE
     with vtime.use_clock(env.clock):
         # two policy objects built from the same arguments share the budget; runs alternate
         invokers = [make_entry(entry, env, ctor, call), make_entry(entry, env, ctor, call)]
@@ -676,7 +687,14 @@ def run_scenario(cfg: dict, events: list[dict], *, entry: str, perm=None, place:
                 tl = RetryTimeline()
                 call["capture_timeline"] = tl
             try:
-                res = drive(invoke(mode)) if is_async else invoke(mode)
+                if is_async and loop:
+                    LOOP_MODE = True
+                    try:
+                        res = asyncio.run(invoke(mode))
+                    finally:
+                        LOOP_MODE = False
+                else:
+                    res = drive(invoke(mode)) if is_async else invoke(mode)
             except BaseException as exc:  # noqa: BLE001 - whatever leaves the entry point is observed
                 view = env.view_of_exception(exc)
             else:
@@ -692,3 +710,129 @@ def run_scenario(cfg: dict, events: list[dict], *, entry: str, perm=None, place:
             if gap:
                 env.clock.advance(gap)
     return env.trace
+
+
+# ---------------------------------------------------------------------------
+# two overlapping runs on ONE policy object (async): run A is suspended, run B runs to the
+# end, run A resumes.  Each run has its own environment script, trace and virtual clock.
+# ---------------------------------------------------------------------------
+class ProxyEnv:
+    """Callbacks handed to the shared policy object; dispatch to the environment of the
+    coroutine that is currently running."""
+
+    def __init__(self, envs: list[Env]) -> None:
+        self.envs = envs
+        self.cur = 0
+        e0 = envs[0]
+        self.EC, self.cfg, self.is_async, self.async_callbacks = e0.EC, e0.cfg, True, e0.async_callbacks
+        self.perm, self.inv = e0.perm, e0.inv
+
+    def _e(self) -> Env:
+        return self.envs[self.cur]
+
+    def _ec(self, k):
+        return self.envs[0]._ec(k)
+
+    def make_strategy(self, which: str):
+        fns = [e.make_strategy(which) for e in self.envs]
+        if which in self.cfg.get("legacy", []):
+            def legacy(attempt, klass, prev_sleep_s):
+                return fns[self.cur](attempt, klass, prev_sleep_s)
+            return legacy
+
+        def ctx_strategy(ctx):
+            return fns[self.cur](ctx)
+        return ctx_strategy
+
+    def classifier(self, exc):
+        return self._e().classifier(exc)
+
+    def rclassifier(self, v):
+        return self._e().rclassifier(v)
+
+    def abort_if(self):
+        return self._e().abort_if()
+
+    def handler(self, ctx, s):
+        return self._e().handler(ctx, s)
+
+    def before_sleep(self, ctx, s):
+        return self._e().before_sleep(ctx, s)
+
+    def abefore_sleep(self, ctx, s):
+        return self._e().abefore_sleep(ctx, s)
+
+    def sleeper(self, s):
+        return self._e().sleeper(s)
+
+    def asleeper(self, s):
+        return self._e().asleeper(s)
+
+    def on_metric(self, *a):
+        return self._e().on_metric(*a)
+
+    def on_log(self, *a):
+        return self._e().on_log(*a)
+
+    def aop(self):
+        return self._e().aop()
+
+
+def run_overlap(cfg: dict, events_a: list[dict], events_b: list[dict], *, entry: str = "AsyncRetry",
+                switch_at: int = 2, async_callbacks=True, place: str = "ctor"):
+    """-> (trace_a, trace_b).  cfg must not use a budget (each run has its own clock)."""
+    envs = [Env(cfg, ev, is_async=True, async_callbacks=async_callbacks) for ev in (events_a, events_b)]
+    px = ProxyEnv(envs)
+    ctor, call = retry_kwargs(px, cfg, place=place)   # type: ignore[arg-type]
+    invoke = make_entry(entry, px, ctor, call)         # type: ignore[arg-type]
+    modes = [next((e["mode"] for e in ev if e["e"] == "deliver"), "exec") for ev in (events_a, events_b)]
+
+    def step(i, coro, to_throw=None):
+        px.cur = i
+        vtime.set_active(envs[i].clock)
+        return coro.send(None)
+
+    results: list = [None, None]
+
+    def finish(i, coro):
+        try:
+            while True:
+                step(i, coro)
+        except StopIteration as stop:
+            results[i] = ("ok", stop.value)
+        except BaseException as exc:  # noqa: BLE001
+            results[i] = ("exc", exc)
+
+    try:
+        for e in envs:
+            e.start_run()
+        px.cur = 0
+        vtime.set_active(envs[0].clock)
+        ca = invoke(modes[0])
+        done_a = False
+        try:
+            for _ in range(switch_at):
+                step(0, ca)
+        except StopIteration as stop:
+            results[0] = ("ok", stop.value)
+            done_a = True
+        except BaseException as exc:  # noqa: BLE001
+            results[0] = ("exc", exc)
+            done_a = True
+        px.cur = 1
+        vtime.set_active(envs[1].clock)
+        cb = invoke(modes[1])
+        finish(1, cb)
+        if not done_a:
+            finish(0, ca)
+    finally:
+        vtime.set_active(None)
+    for i, e in enumerate(envs):
+        kind, val = results[i]
+        px.cur = i
+        if kind == "exc":
+            view = e.view_of_exception(val)
+        else:
+            view = e.view_of_return(val) if modes[i] == "call" else e.view_of_outcome(val)
+        e.trace.append({"e": "deliver", "mode": modes[i], "v": view, "t": e.now(), "gap": 0})
+    return envs[0].trace, envs[1].trace
